@@ -228,14 +228,12 @@ void h_inv_model(void)
 #ifndef FN
 #define FN 2
 #endif
-static void vp_ld4(u32 w[4], const octet* p) { int i; for (i = 0; i < 4; ++i) w[i] = p[4 * i] | (u32)p[4 * i + 1] << 8 | (u32)p[4 * i + 2] << 16 | (u32)p[4 * i + 3] << 24; }
-static void vp_st4(octet* p, const u32 w[4]) { int i; for (i = 0; i < 4; ++i) p[4 * i] = (octet)w[i], p[4 * i + 1] = (octet)(w[i] >> 8), p[4 * i + 2] = (octet)(w[i] >> 16), p[4 * i + 3] = (octet)(w[i] >> 24); }
 static void vp_call(u32 y[4], const u32 x[4], const u32* K, int dec)
 {
 	memcpy(y, x, 16);
 #if FN == 1
 	/* octet entry point: the 16 octets are the four words in little-endian order (this host: OCTET_ORDER == LITTLE_ENDIAN,
-	 * the big-endian branch of beltBlockEncr is not compiled); the octet view is checked on word 0 by h_fn_* itself */
+	 * the big-endian branch of beltBlockEncr is not compiled), so the block is handed over through its word view */
 	if (dec) beltBlockDecr((octet*)y, K); else beltBlockEncr((octet*)y, K);
 #elif FN == 2
 	if (dec) beltBlockDecr2(y, K); else beltBlockEncr2(y, K);
